@@ -1367,7 +1367,8 @@ class Interp:
     def call_closure(self, f, args, kwargs):
         node = f.node
         active = self.__dict__.setdefault("_active_closures", [])
-        if active.count(id(node)) >= 2:
+        if active.count(id(node)) >= (2 if getattr(self, "frame_only", False) else 12):
+            # (outside frame-only mode the recursion runs over concrete spines - nested argument containers - and ends)
             if getattr(self, "frame_only", False):
                 self.assumptions_used.add(f"recursive local function {f.name}: recursion cut after two levels (frame-only: the "
                                           "deeper calls perform the same stores)")
